@@ -159,7 +159,11 @@ func run(tapeJSON json.RawMessage, res *core.Result) {
 	}
 	var up *refkdc.Principal
 	if tp.Cred == "keytab" || tp.Cred == "ccache" {
-		up = sim.AddKeyUser("alice", 5)
+		kv := 5
+		if tp.UserKvno > 0 {
+			kv = tp.UserKvno
+		}
+		up = sim.AddKeyUser("alice", kv)
 	} else {
 		up = sim.AddPasswordUser("alice", password, tp.Salt, tp.Iter)
 		var ets []int
